@@ -99,7 +99,7 @@ def flat_hash(roots):
     return hashlib.sha256(repr(out).encode()).hexdigest()[:16]
 
 
-def dump_resume(ini_rel, nmax, seed, max_dumps, interval=3.7):
+def dump_resume(ini_rel, nmax, seed, max_dumps, interval=3.7, overrides=(), compare_without_dumping=False):
     import dill
     from configparser import ConfigParser
     from unittest import mock
@@ -139,12 +139,21 @@ def dump_resume(ini_rel, nmax, seed, max_dumps, interval=3.7):
             cfg.set("DumpingOutputHandler", "filename", os.path.join(scratch, "dump.dat"))
         # dump often enough that several dumps fall inside the bounded run
         cfg.set("FixedIntervalDumpingEventHandler", "dumping_interval", str(interval))
+        for sec, opt, val in overrides:       # harness-generated variant (e.g. non-default potential parameters)
+            if not cfg.has_section(sec):
+                cfg.add_section(sec)
+            cfg.set(sec, opt, val)
+        if drop_dumping:
+            # the same run WITHOUT dumping: the dumping event handler never fires within the run
+            cfg.set("FixedIntervalDumpingEventHandler", "dumping_interval", "1.0e300")
         return cfg
     from bounded import _hooks
     log, dumps = _hooks.LOG, _hooks.DUMPS
     del dumps[:]
     log["limit"] = nmax
     _hooks.ORIG["insert"] = TreeStateHandler.insert_into_global_state
+    _hooks.ORIG["write"] = DumpingOutputHandler.write
+    del _hooks.DUMP_EVENTS[:]
     _hooks.MAX_DUMPS[0] = max_dumps * 4
     insert, write = _hooks.insert, _hooks.write
     violations, evaluations = [], 0
@@ -162,6 +171,41 @@ def dump_resume(ini_rel, nmax, seed, max_dumps, interval=3.7):
                 pass
         import logging
         logging.getLogger("").handlers.clear()
+        if compare_without_dumping:
+            # second clause of the property: apart from the dumping events themselves the run with dumps commits exactly
+            # the events of the same seeded run without dumping.  (A dumping event commits nothing by itself: the
+            # sequence of DISTINCT consecutive global states must agree.)
+            import jellyfysh.setting as setting_
+            from jellyfysh.activator.tagger.factor_type_maps import FactorTypeMaps as _FTM
+            dump_positions = list(_hooks.DUMP_EVENTS)
+            setting_.reset()
+            _FTM._instance = None
+            random.seed(seed)
+            log["cur"], log["n"], log["limit"] = [], 0, nmax
+            plain = log["cur"]
+            with mock.patch("jellyfysh.run.read_config", return_value=load_cfg(drop_dumping=True)), \
+                    open(os.devnull, "w") as dn, contextlib.redirect_stdout(dn):
+                try:
+                    run.main()
+                except EndOfRun:
+                    pass
+            logging.getLogger("").handlers.clear()
+
+            def distinct(seq):
+                out = []
+                for h in seq:
+                    if not out or out[-1] != h:
+                        out.append(h)
+                return out
+            a, b = distinct(original), distinct(plain)
+            n_cmp = min(len(a), len(b))
+            evaluations += n_cmp
+            if dump_positions and a[:n_cmp] != b[:n_cmp]:
+                first = next(i for i in range(n_cmp) if a[i] != b[i])
+                violations.append({"what": "the run with dumping commits other events than the same run without dumping",
+                                   "config": ini_rel, "first_difference_at_distinct_state": first,
+                                   "dumps_before": sum(1 for d_ in dump_positions if d_ <= first)})
+            log["cur"] = original
         picks = dumps[:: max(1, len(dumps) // max_dumps)][:max_dumps]
         for at, blob in picks:
             mediator, dumped_setting, dumped_uuid, dumped_random_state = dill.loads(blob)
@@ -191,10 +235,22 @@ def main(level, seed):
     from monitors.harness import build_c_extensions, preload_extensions
     preload_extensions(build_c_extensions(REPO))
     ev1, v1 = scheduler_histories(seed, 6 * level, 40)
-    ev2, v2, info = dump_resume("2018_JCP_149_064113/coulomb_atoms/power_bounded_dump.ini", 1500 * level, seed, 3)
+    ev2, v2, info = dump_resume("2018_JCP_149_064113/coulomb_atoms/power_bounded_dump.ini", 1500 * level, seed, 3,
+                                compare_without_dumping=True)
+    import jellyfysh.setting as setting0
+    from jellyfysh.activator.tagger.factor_type_maps import FactorTypeMaps as FTM0
+    setting0.reset()
+    FTM0._instance = None
+    # the same configuration with NON-DEFAULT Ewald parameters (restored from the dump, not rebuilt with defaults)
+    e0, v0, i0 = dump_resume("2018_JCP_149_064113/coulomb_atoms/power_bounded_dump.ini", 800 * level, seed, 3,
+                             overrides=(("MergedImageCoulombPotential", "fourier_cutoff", "1"),
+                                        ("MergedImageCoulombPotential", "alpha", "2.9")))
+    i0["config"] += " [fourier_cutoff=1, alpha=2.9]"
+    ev2 += e0
+    v2 = v2 + v0
     import jellyfysh.setting as setting
     from jellyfysh.activator.tagger.factor_type_maps import FactorTypeMaps
-    infos = [info]
+    infos = [info, i0]
     for ini, interval in (("2018_JCP_149_064113/coulomb_atoms/cell_veto.ini", 0.31), ("2018_JCP_149_064113/dipoles/dipole_motion.ini", 0.53)):
         setting.reset()
         FactorTypeMaps._instance = None
